@@ -215,6 +215,16 @@ def run_session(c, shared_ds=None):
     else:
         kw['gross_leverage'] = cfg['param']
     out = {'init': ['ok']}
+    env_dir = None
+    if (c.get('default_handler') and m['kind'] == 'csv' and m.get('adjust', True) and not m.get('backup')
+            and signals is None and shared_ds is None):
+        # the session builds its own data handler from the QSTRADER_CSV_DATA_DIR directory (the documented default)
+        os.makedirs(TMPROOT, exist_ok=True)
+        env_dir = tempfile.mkdtemp(prefix='env_', dir=TMPROOT)
+        write_csvs(env_dir, m['assets'])
+        os.environ['QSTRADER_CSV_DATA_DIR'] = env_dir
+        dh = None
+        kw.update(account_name='Verification account', portfolio_id='000001', portfolio_name='Verification portfolio')
     try:
         sess = BacktestTradingSession(start, end, universe, alpha, signals=signals, initial_cash=cfg['cash'],
                                       rebalance=rebalance, long_only=cfg['long_only'], fee_model=mk_fee(cfg['fee']),
@@ -222,6 +232,10 @@ def run_session(c, shared_ds=None):
                                       data_handler=dh, **kw)
     except Exception as e:
         return {'init': errname(e)}, ds
+    finally:
+        if env_dir is not None:
+            shutil.rmtree(env_dir, ignore_errors=True)
+            os.environ.pop('QSTRADER_CSV_DATA_DIR', None)
     fills, updates, pcm_times, sig_obs = [], [], [], {}
     o_tx, o_up, o_qts, o_app = Portfolio.transact_asset, SimulatedBroker.update, QuantTradingSystem.__call__, Signal.append
 
